@@ -183,6 +183,7 @@ def _sfs_bnl_core(data, sorted_idx, offsets, n_total_groups, result_mask):
             # 2D: sort by col0, group-aware sweep
             order = np.argsort(local[:n, 0], kind="mergesort")
             best_c1 = numba.float64(1e308)
+            first_group = True
             i_start = numba.int64(0)
             while i_start < n:
                 c0_val = local[order[i_start], 0]
@@ -193,11 +194,13 @@ def _sfs_bnl_core(data, sorted_idx, offsets, n_total_groups, result_mask):
                     if v < g_min_c1:
                         g_min_c1 = v
                     i_end += 1
-                if g_min_c1 < best_c1:
+                # The first group always contributes (its second column may be +inf)
+                if first_group or g_min_c1 < best_c1:
                     for k in range(i_start, i_end):
                         if local[order[k], 1] == g_min_c1:
                             result_mask[group_idx[order[k]]] = True
                     best_c1 = g_min_c1
+                    first_group = False
                 i_start = i_end
             continue
 
@@ -209,6 +212,21 @@ def _sfs_bnl_core(data, sorted_idx, offsets, n_total_groups, result_mask):
             sums_buf[i] = s
 
         order = np.argsort(sums_buf[:n], kind="mergesort")
+
+        # A row can only be compared with rows sorted before it, so every row must come
+        # after the rows that dominate it. Sums that tie (absorbed small columns,
+        # overflow to inf, infinite entries) do not guarantee that: break ties
+        # lexicographically, which is consistent with dominance.
+        has_tie = False
+        for ii in range(1, n):
+            if not (sums_buf[order[ii]] > sums_buf[order[ii - 1]]):
+                has_tie = True
+                break
+        if has_tie:
+            order = np.arange(n)
+            for kk in range(dv - 1, -1, -1):
+                order = order[np.argsort(local[:n, kk][order], kind="mergesort")]
+            order = order[np.argsort(sums_buf[:n][order], kind="mergesort")]
 
         n_blk = (n >> 4) + 1
         for b in range(n_blk):
